@@ -359,6 +359,10 @@ func runTimed(sc cScenario) cResult {
 			go func() { cl.close(); closeRet <- now() }()
 		}
 		synctest.Wait()
+		if sc.cerr == 3 {
+			time.Sleep(2 * time.Duration(cliSlowClose)) // let a slow Close come back
+			synctest.Wait()
+		}
 		conn.forceClose() // closeMode 2: the conn survived Close; end the receive loop now
 		synctest.Wait()
 		if got == nil {
